@@ -11,6 +11,9 @@ na = []
 for p in props:
     pid = p["id"]
     m = propmeta.PROPS.get(pid)
+    thm_file = os.path.join(ROOT, "lean", "LDEval", "Properties", pid + ".lean")
+    if m is not None and not os.path.exists(thm_file):
+        m = dict(m, unclaimed="theorems for this property are not stated yet in lean/LDEval/Properties (correspondence exists); see DESIGN.md section 7")
     if m is None or m.get("unclaimed"):
         na.append({"property_id": pid, "reason": (m or {}).get("unclaimed") or propmeta.NOT_YET.get(pid, "check under construction; see DESIGN.md section 7")})
         continue
